@@ -15,9 +15,22 @@
 //!
 //! Lines (see lean/RtenVerif/Driver/C22.lean):
 //!   `call <api> <opsOk> <nodes> <meta> <req>`  → outcome class of the concurrent call
-//!   `locks <nodes> <entries>`                  → hit/miss letters of the round's plan-cache critical
-//!                                                sections in lock order (cfg(rten_verif) log hook),
-//!                                                replayed by the Lean model of `get_cached_plan`.
+//!   `locks <nodes> <entries>`                  → hit/miss letters of the round's critical sections on the
+//!                                                TOP-LEVEL plan cache in lock order (cfg(rten_verif) log
+//!                                                hook), replayed by the Lean model of `get_cached_plan`.
+//!   `slocks <graphs> <entries>`                → the same for the plan caches of the model's `If` / `Loop`
+//!                                                body graphs (`is_subgraph = true`): `<graphs>` = `@`-separated
+//!                                                `<nodes>~<captureIds>` (IR of each body graph read back through
+//!                                                `SubgraphOperator::subgraphs`), `<entries>` = `<k>:<ins>><outs>`
+//!                                                in lock order, replayed by the Lean `lockTrace`.  Oracle: all
+//!                                                requests to one body graph are identical (hypothesis `ConstReq`
+//!                                                of `c22_subgraph_cache_transparent`).
+//!   `assume <nodes>`                           → the graph hypotheses of the theorems (WFG, WFGo, outsValue,
+//!                                                UniqueProducer) evaluated on the real graph and on every body
+//!                                                graph vs the Lean executable checks; a violated assumption
+//!                                                (incl. top-level captures, Contract.notSub) is a PROPFAIL.
+//! One third of the rounds use models with `If` (branches capturing different parent values; threads
+//! pass different conditions) and `Loop` (body capturing a parent value; per-thread trip counts).
 #[path = "../pc_gen.rs"]
 mod pc_gen;
 use hcommon::{Out, Rng};
@@ -286,7 +299,16 @@ fn main() {
             let distinct: std::collections::HashSet<usize> = sub.iter().map(|(k, _)| *k).collect();
             out.bucket(&format!("round_subgraph_caches_used_{}", distinct.len()));
             out.bucket(&format!("round_subgraph_lock_events_{}", (sub.len() / 8 * 8).min(64)));
-            out.case(&format!("slocks {graphs} {sentries}"), &sflags, None, !sub.is_empty());
+            // hypothesis ConstReq of c22_subgraph_cache_transparent: one request per body graph
+            let mut first: std::collections::HashMap<usize, (&Vec<NodeId>, &Vec<NodeId>)> = std::collections::HashMap::new();
+            let mut varies = None;
+            for (k, (i, o, _)) in &sub {
+                let f = first.entry(*k).or_insert((i, o));
+                if f.0 != i || f.1 != o {
+                    varies = Some(format!("requests to body graph {k} vary: {}>{} vs {}>{}", ids_token(f.0), ids_token(f.1), ids_token(i), ids_token(o)));
+                }
+            }
+            out.case(&format!("slocks {graphs} {sentries}"), &sflags, varies.as_deref(), !sub.is_empty());
         }
     }
     out.finish("every concurrent call returns bit for bit what the same call returns alone on a freshly loaded model; no panic; no hang; logged hit/miss sequences of the top-level and of the If/Loop body plan caches equal the Lean replay of get_cached_plan in lock order; the graph hypotheses of the theorems hold on every generated model");
